@@ -65,7 +65,8 @@ func CmpCheck(desc string, op token.Token, l, r VPat, passWhen bool) Check {
 type effSite struct {
 	Block *ssa.BasicBlock
 	Instr ssa.Instruction
-	Via   *Edge // if set, the effect happens when this edge is taken (phi-selected return value)
+	Via   *Edge  // if set, the effect happens when this edge is taken (phi-selected return value)
+	Seq   []Edge // if set, the effect happens when these edges are taken in this order (nested phis); Via is the last
 	Pos   token.Pos
 	What  string
 }
@@ -127,7 +128,7 @@ func SuccessReturn() Effect {
 				}
 			}
 			return -1
-		}, func(v ssa.Value, at *ssa.BasicBlock) bool { return g.errState(v, at) != stNonNil })
+		}, func(v ssa.Value, at *ssa.BasicBlock, via *Edge) bool { return g.errState(v, at, via) != stNonNil })
 	}}
 }
 
@@ -135,13 +136,13 @@ func SuccessReturn() Effect {
 // the polarity that makes the result `want` exactly when the check passes is the gate itself (tail position).
 func ReturnsBool(idx int, want bool) Effect {
 	return Effect{Desc: fmt.Sprintf("return %v", want), Sites: func(g *gateRun) []effSite {
-		return g.returnSites(func(sig *types.Signature) int { return idx }, func(v ssa.Value, at *ssa.BasicBlock) bool {
+		return g.returnSites(func(sig *types.Signature) int { return idx }, func(v ssa.Value, at *ssa.BasicBlock, _ *Edge) bool {
 			if b, ok := ConstBool(v); ok {
 				return b == want
 			}
 			atom, neg := condAtom(v)
-			if g.isCheckValue(atom) && (g.g.Check.Pass == IsTrue || g.g.Check.Pass == IsFalse) {
-				passVal := g.g.Check.Pass == IsTrue
+			if pol, isCheck := g.checkPolarity(atom); isCheck && (pol == IsTrue || pol == IsFalse) {
+				passVal := pol == IsTrue
 				// returned = atom xor neg ; equals want iff atom == (want xor neg)
 				if (want != neg) == passVal {
 					g.tails++
@@ -156,7 +157,7 @@ func ReturnsBool(idx int, want bool) Effect {
 // ReturnsNonNil: a return whose idx-th result may be non-nil (for functions returning a pointer/slice as "accepted").
 func ReturnsNonNil(idx int) Effect {
 	return Effect{Desc: fmt.Sprintf("return non-nil result %d", idx), Sites: func(g *gateRun) []effSite {
-		return g.returnSites(func(sig *types.Signature) int { return idx }, func(v ssa.Value, at *ssa.BasicBlock) bool {
+		return g.returnSites(func(sig *types.Signature) int { return idx }, func(v ssa.Value, at *ssa.BasicBlock, _ *Edge) bool {
 			return !IsNilConst(v)
 		})
 	}}
@@ -188,7 +189,7 @@ type gateRun struct {
 	p          *Prog
 	fn         *ssa.Function
 	g          *Gate
-	checkVals  map[ssa.Value]bool // values produced by check call sites (tested result)
+	checkVals  map[ssa.Value]Polarity // values produced by check sites (tested result) with the polarity that passes
 	checkCalls []ssa.CallInstruction
 	passEdges  EdgeSet
 	tested     int
@@ -202,33 +203,34 @@ const (
 )
 
 func (g *gateRun) isCheckValue(v ssa.Value) bool {
+	_, ok := g.checkPolarity(v)
+	return ok
+}
+
+// checkPolarity: if v is the tested result of a check site, the polarity with which that check passes.
+func (g *gateRun) checkPolarity(v ssa.Value) (Polarity, bool) {
 	v = stripConv(v)
-	if g.checkVals[v] {
-		return true
-	}
-	// direct return of a call: return f(x) where f returns a single value
-	if c, ok := v.(*ssa.Call); ok {
-		for _, cc := range g.checkCalls {
-			if cc == ssa.CallInstruction(c) {
-				return true
-			}
-		}
-	}
-	return false
+	pol, ok := g.checkVals[v]
+	return pol, ok
 }
 
 // errState classifies an error-typed value at a block.
-func (g *gateRun) errState(v ssa.Value, at *ssa.BasicBlock) int {
-	if !g.g.Check.NoTail && g.isCheckValue(v) {
-		if g.g.Check.Pass == ErrNil {
+func (g *gateRun) errState(v ssa.Value, at *ssa.BasicBlock, via *Edge) int {
+	if !g.g.Check.NoTail {
+		if pol, ok := g.checkPolarity(v); ok && pol == ErrNil {
 			g.tails++
 			return stNonNil // tail return of the check itself: success iff the check passes — not an ungated success
 		}
 	}
-	return g.p.errStateAt(v, at, 0)
+	return g.p.errStateVia(v, at, via, 0)
 }
 
 func (p *Prog) errStateAt(v ssa.Value, at *ssa.BasicBlock, depth int) int {
+	return p.errStateVia(v, at, nil, depth)
+}
+
+// errStateVia: like errStateAt, additionally knowing that control leaves `at` through edge via.
+func (p *Prog) errStateVia(v ssa.Value, at *ssa.BasicBlock, via *Edge, depth int) int {
 	switch x := v.(type) {
 	case *ssa.Const:
 		if x.IsNil() {
@@ -262,7 +264,11 @@ func (p *Prog) errStateAt(v ssa.Value, at *ssa.BasicBlock, depth int) int {
 	}
 	// dominating facts
 	if at != nil {
-		for _, e := range edgeFacts(at) {
+		facts := edgeFacts(at)
+		if via != nil && ifOf(via.From) != nil && len(via.From.Succs) == 2 && via.From.Succs[0] != via.From.Succs[1] {
+			facts = append([]Edge{*via}, facts...)
+		}
+		for _, e := range facts {
 			i := ifOf(e.From)
 			if i == nil {
 				continue
@@ -344,8 +350,9 @@ func (p *Prog) alwaysNonNilErr(f *ssa.Function, depth int) bool {
 	return ok
 }
 
-// returnSites enumerates returns whose idx-th result satisfies isEffect, splitting phis per incoming edge.
-func (g *gateRun) returnSites(idxOf func(*types.Signature) int, isEffect func(v ssa.Value, at *ssa.BasicBlock) bool) []effSite {
+// returnSites enumerates returns whose idx-th result satisfies isEffect. Phi-selected values are split per incoming
+// edge (recursively, bounded): the effect then is "these edges are taken in this order and the return is reached".
+func (g *gateRun) returnSites(idxOf func(*types.Signature) int, isEffect func(v ssa.Value, at *ssa.BasicBlock, via *Edge) bool) []effSite {
 	idx := idxOf(g.fn.Signature)
 	var out []effSite
 	if idx < 0 {
@@ -356,21 +363,37 @@ func (g *gateRun) returnSites(idxOf func(*types.Signature) int, isEffect func(v 
 		if !ok || idx >= len(ret.Results) {
 			continue
 		}
-		v := ret.Results[idx]
 		pos := ret.Pos()
-		if phi, ok := v.(*ssa.Phi); ok && phi.Block() == b {
-			for i, e := range phi.Edges {
-				pred := b.Preds[i]
-				if isEffect(e, pred) {
-					si := succIndex(pred, b)
-					out = append(out, effSite{Block: b, Instr: ret, Via: &Edge{pred, si}, Pos: pos, What: "return (value selected on edge from " + g.p.Pos(blockPos(pred)) + ")"})
+		var expand func(v ssa.Value, at *ssa.BasicBlock, suffix []Edge, depth int, seen map[*ssa.Phi]bool)
+		expand = func(v ssa.Value, at *ssa.BasicBlock, suffix []Edge, depth int, seen map[*ssa.Phi]bool) {
+			if phi, ok := v.(*ssa.Phi); ok && depth < 5 && !seen[phi] {
+				seen[phi] = true
+				pb := phi.Block()
+				for i, e := range phi.Edges {
+					pred := pb.Preds[i]
+					edge := Edge{pred, succIndex(pred, pb)}
+					expand(e, pred, append([]Edge{edge}, suffix...), depth+1, seen)
 				}
+				delete(seen, phi)
+				return
 			}
-			continue
+			var via *Edge
+			if len(suffix) > 0 {
+				via = &suffix[0]
+			}
+			if !isEffect(v, at, via) {
+				return
+			}
+			site := effSite{Block: b, Instr: ret, Pos: pos, What: "return"}
+			if len(suffix) > 0 {
+				seq := append([]Edge{}, suffix...)
+				site.Seq = seq
+				site.Via = &seq[len(seq)-1]
+				site.What = "return (value selected on the path through " + g.p.Pos(blockPos(seq[0].From)) + ")"
+			}
+			out = append(out, site)
 		}
-		if isEffect(v, b) {
-			out = append(out, effSite{Block: b, Instr: ret, Pos: pos, What: "return"})
-		}
+		expand(ret.Results[idx], b, nil, 0, map[*ssa.Phi]bool{})
 	}
 	return out
 }
@@ -419,7 +442,7 @@ func (g *gateRun) findPassEdges(c Check, into EdgeSet) (sites int, tested int, c
 					continue // result discarded: no pass edge; effect will be reachable
 				}
 			}
-			g.checkVals[tv] = true
+			g.checkVals[tv] = c.Pass
 			n := g.edgesTesting(tv, c.Pass, into)
 			tested += n
 		}
@@ -427,11 +450,38 @@ func (g *gateRun) findPassEdges(c Check, into EdgeSet) (sites int, tested int, c
 	if c.Values != nil {
 		for _, tv := range c.Values(fn) {
 			sites++
-			g.checkVals[tv] = true
+			g.checkVals[tv] = c.Pass
 			tested += g.edgesTesting(tv, c.Pass, into)
 		}
 	}
 	if c.Cmp != nil {
+		// comparisons used as values (e.g. `return a == b`): register them so a tail return counts as the gate
+		for _, b := range fn.Blocks {
+			for _, in := range b.Instrs {
+				bin, ok := in.(*ssa.BinOp)
+				if !ok {
+					continue
+				}
+				holds, ok := c.Cmp.match(bin)
+				if !ok {
+					continue
+				}
+				usedInIf := false
+				for _, ref := range *bin.Referrers() {
+					if _, isIf := ref.(*ssa.If); isIf {
+						usedInIf = true
+					}
+				}
+				if !usedInIf {
+					sites++
+				}
+				if holds == c.Cmp.PassWhen {
+					g.checkVals[bin] = IsTrue
+				} else {
+					g.checkVals[bin] = IsFalse
+				}
+			}
+		}
 		for _, b := range fn.Blocks {
 			i := ifOf(b)
 			if i == nil {
@@ -598,7 +648,7 @@ type GateResult struct {
 
 // RunGate decides one gate obligation.
 func (p *Prog) RunGate(g *Gate) GateResult {
-	run := &gateRun{p: p, fn: g.Fn, g: g, checkVals: map[ssa.Value]bool{}, passEdges: EdgeSet{}}
+	run := &gateRun{p: p, fn: g.Fn, g: g, checkVals: map[ssa.Value]Polarity{}, passEdges: EdgeSet{}}
 	var res GateResult
 	res.Pos = g.Fn.Pos()
 	res.CheckSites, res.Tested, res.Complaints = run.findPassEdges(g.Check, run.passEdges)
@@ -634,17 +684,31 @@ func (p *Prog) RunGate(g *Gate) GateResult {
 		}
 	}
 	reach := Reach(entry, removed, blocked)
-	effectHit := func(r map[*ssa.BasicBlock]bool, e effSite) bool {
-		if e.Via != nil {
-			return r[e.Via.From] && !removed[*e.Via]
+	effectHitFrom := func(start *ssa.BasicBlock, r map[*ssa.BasicBlock]bool, e effSite, rem EdgeSet, blk map[*ssa.BasicBlock]bool) bool {
+		if len(e.Seq) == 0 {
+			return r[e.Block]
 		}
-		return r[e.Block]
+		cur := r
+		for i, ed := range e.Seq {
+			if !cur[ed.From] || rem[ed] || blk[ed.To()] {
+				return false
+			}
+			if i == len(e.Seq)-1 {
+				// the return block must be reachable from the last edge's target
+				return Reach(ed.To(), rem, blk)[e.Block]
+			}
+			cur = Reach(ed.To(), rem, blk)
+		}
+		return false
+	}
+	effectHit := func(r map[*ssa.BasicBlock]bool, e effSite) bool {
+		return effectHitFrom(entry, r, e, removed, blocked)
 	}
 	for _, e := range effects {
 		if effectHit(reach, e) {
 			goal := e.Block
-			if e.Via != nil {
-				goal = e.Via.From
+			if len(e.Seq) > 0 {
+				goal = e.Seq[0].From
 			}
 			path := PathTo(entry, goal, removed, blocked)
 			res.Violations = append(res.Violations, fmt.Sprintf("%s at %s is reachable without passing [%s]; path: %s", e.What, p.Pos(e.Pos), g.Check.Desc, p.PathString(path)))
@@ -655,7 +719,7 @@ func (p *Prog) RunGate(g *Gate) GateResult {
 	for _, l := range loops {
 		skipOK := EdgeSet{}
 		for _, sc := range g.Skip {
-			tmp := &gateRun{p: p, fn: g.Fn, g: g, checkVals: map[ssa.Value]bool{}, passEdges: EdgeSet{}}
+			tmp := &gateRun{p: p, fn: g.Fn, g: g, checkVals: map[ssa.Value]Polarity{}, passEdges: EdgeSet{}}
 			tmp.findPassEdges(sc, skipOK)
 		}
 		rem2 := EdgeSet{}
@@ -681,7 +745,7 @@ func (p *Prog) RunGate(g *Gate) GateResult {
 				}
 			}
 			for _, e := range effects {
-				if effectHit(r, e) {
+				if effectHitFrom(s, r, e, rem2, hb) {
 					res.Violations = append(res.Violations, fmt.Sprintf("loop at %s: %s at %s reachable from the loop body without passing [%s]", p.Pos(blockPos(l.Header)), e.What, p.Pos(e.Pos), g.Check.Desc))
 				}
 			}
@@ -823,10 +887,10 @@ func (r *Report) Refuse(s Refuse) {
 	}
 	key := s.ID + " @ " + r.P.FuncName(s.Fn)
 	g := &Gate{Fn: s.Fn, Check: Check{NoTail: true}, Assume: s.Assume}
-	run := &gateRun{p: r.P, fn: s.Fn, g: g, checkVals: map[ssa.Value]bool{}, passEdges: EdgeSet{}}
+	run := &gateRun{p: r.P, fn: s.Fn, g: g, checkVals: map[ssa.Value]Polarity{}, passEdges: EdgeSet{}}
 	edges := EdgeSet{}
 	sites, tested, _ := run.findPassEdges(s.Cond, edges)
-	run.checkVals = map[ssa.Value]bool{}
+	run.checkVals = map[ssa.Value]Polarity{}
 	run.checkCalls = nil
 	effects := eff.Sites(run)
 	removed := EdgeSet{}
@@ -846,12 +910,28 @@ func (r *Report) Refuse(s Refuse) {
 		reach := Reach(e.To(), removed, nil)
 		hit := ""
 		for _, ef := range effects {
-			if ef.Via != nil {
-				if reach[ef.Via.From] {
+			if len(ef.Seq) == 0 {
+				if reach[ef.Block] {
 					hit = r.P.Pos(ef.Pos)
 				}
-			} else if reach[ef.Block] {
-				hit = r.P.Pos(ef.Pos)
+				continue
+			}
+			// the value-selecting edges may lie before or after the condition edge: split the sequence
+			for k := 0; k <= len(ef.Seq) && hit == ""; k++ {
+				if k > 0 && !Reach(ef.Seq[k-1].To(), removed, nil)[e.From] {
+					continue
+				}
+				cur, ok := reach, true
+				for _, ed := range ef.Seq[k:] {
+					if !cur[ed.From] || removed[ed] {
+						ok = false
+						break
+					}
+					cur = Reach(ed.To(), removed, nil)
+				}
+				if ok && cur[ef.Block] {
+					hit = r.P.Pos(ef.Pos)
+				}
 			}
 		}
 		if hit == "" {
